@@ -55,6 +55,12 @@ func (m *PoolManager) MaxIterationsReached() bool {
 	return false
 }
 
+// IterationsExhausted reports whether every iteration allowed by the max iterations limit has
+// already been handed out: from then on no pending job can ever start.
+func (m *PoolManager) IterationsExhausted() bool {
+	return m.maxIterations > 0 && m.iteration.Load() >= m.maxIterations
+}
+
 var errMaxIterationsReached = errors.New("max iterations reached")
 
 func (m *PoolManager) NextIteration() (uint64, error) {
